@@ -2,12 +2,12 @@ package gosym
 
 import (
 	"bytes"
-	"regexp"
 	"fmt"
 	"go/ast"
 	"go/parser"
 	"go/printer"
 	"go/token"
+	"regexp"
 	"strings"
 )
 
